@@ -298,6 +298,12 @@ def obligations(mir_text, model_state_rs=None):
         for k in ("timers_set", "timers_cancel", "choices_insert", "choices_remove"):
             if k in names_:
                 kinds.add(k)
+        # every command is applied: which arm a path took is visible in the variant projections it used
+        arms = {key[2][1] for key in st.handles if isinstance(key, tuple) and len(key) == 3 and key[0] == "proj" and key[2][0] == "downcast"}
+        want = {"Send": ("net_send",), "SetTimer": ("timers_set",), "CancelTimer": ("timers_cancel",), "ChooseRandom": ("choices_insert", "choices_remove")}
+        for arm, need in want.items():
+            if arm in arms:
+                add(f"{tagp}: a {arm} command is applied (its arm performs {' or '.join(need)})", any(n in names_ for n in need), g)
     if not {"send", "timers_set", "timers_cancel"} <= kinds or not (kinds & {"choices_insert", "choices_remove"}):
         raise Unsupported(f"process_commands: shape not recognised (command kinds seen: {sorted(kinds)})")
     info["process_commands"] = {"function": body2.name, "blocks": len(body2.blocks), "paths": len(outs2)}
